@@ -526,6 +526,11 @@ static void c_change_objsense (void)
 { int k = nslot ('p'), s = nsense (), rc; BEGIN ("change_objsense"); rc = mpq_QSchange_objsense (P[k], s); ev_int ("rc", rc); END (); }
 static void c_set_param (void)
 { int k = nslot ('p'), w = ni (), v = ni (), rc; BEGIN ("set_param"); rc = mpq_QSset_param (P[k], w, v); ev_int ("rc", rc); END (); }
+static long reporter_calls;
+static int count_reporter (void *dest, const char *s) { (void) dest; (void) s; reporter_calls++; return 0; }
+/* set_reporter pK skip : install a counting reporter with the given interval */
+static void c_set_reporter (void)
+{ int k = nslot ('p'), sk = ni (); BEGIN ("set_reporter"); mpq_QSset_reporter (P[k], sk, (void *) count_reporter, 0); ev_int ("rc", 0); END (); }
 static void c_set_param_num (void)
 { int k = nslot ('p'), w = ni (), rc; mpq_t v; mpq_init (v); nq (v); BEGIN ("set_param_num"); rc = mpq_QSset_param_EGlpNum (P[k], w, v); ev_int ("rc", rc); END (); mpq_clear (v); }
 static void c_get_param (void)
@@ -536,6 +541,7 @@ static void c_get_param_num (void)
 /* ---------------------------------------------------------------- queries */
 static void free_names (char **a, int n) { int i; if (!a) return; for (i = 0; i < n; i++) free (a[i]); free (a); }
 
+#define JUNKP ((void *) (size_t) 0x5a5a5a50)
 static void emit_rows (const char *key, int rc, int num, int *cnt, int *beg, int *ind, mpq_t * val, mpq_t * rhs, char *sense, mpq_t * range,
 											 char **names, int with_range)
 {
@@ -690,14 +696,46 @@ static void dump_body (mpq_QSprob p, int ext)
 		qfree (a, nc); qfree (b, nc); qfree (r, nr); free (sen); free (fl); free_names (cn, nc); free_names (rn, nr);
 	}
 	{
+		/* the caller's pointers start out as junk, as the header's usage suggests: a successful call has to set every one of
+		 * them, also on a problem without rows / columns (where nothing else can be observed) */
 		int *cnt = 0, *beg = 0, *ind = 0; mpq_t *val = 0, *rh = 0, *rg = 0; char *se = 0; char **names = 0;
+		if (nr == 0) { cnt = beg = ind = (int *) JUNKP; val = rh = rg = (mpq_t *) JUNKP; se = (char *) JUNKP; names = (char **) JUNKP; }
 		rc = mpq_QSget_ranged_rows (p, &cnt, &beg, &ind, &val, &rh, &se, &rg, &names);
+		if (nr == 0)
+		{
+			int unset = (cnt == (int *) JUNKP) + (beg == (int *) JUNKP) + (ind == (int *) JUNKP) + (val == (mpq_t *) JUNKP) + (rh == (mpq_t *) JUNKP)
+				+ (rg == (mpq_t *) JUNKP) + (se == (char *) JUNKP) + (names == (char **) JUNKP);
+			ev_int ("rr_unset", rc ? 0 : unset);
+			if (cnt == (int *) JUNKP) cnt = 0; if (beg == (int *) JUNKP) beg = 0; if (ind == (int *) JUNKP) ind = 0; if (val == (mpq_t *) JUNKP) val = 0;
+			if (rh == (mpq_t *) JUNKP) rh = 0; if (rg == (mpq_t *) JUNKP) rg = 0; if (se == (char *) JUNKP) se = 0; if (names == (char **) JUNKP) names = 0;
+		}
 		emit_rows ("rr", rc, nr, cnt, beg, ind, val, rh, se, rg, names, 1);
 		free_rows (nr, cnt, beg, ind, val, rh, se, rg, names);
+		if (nr == 0)
+		{
+			int unset;
+			cnt = beg = ind = (int *) JUNKP; val = rh = (mpq_t *) JUNKP; se = (char *) JUNKP; names = (char **) JUNKP;
+			rc = mpq_QSget_rows (p, &cnt, &beg, &ind, &val, &rh, &se, &names);
+			unset = (cnt == (int *) JUNKP) + (beg == (int *) JUNKP) + (ind == (int *) JUNKP) + (val == (mpq_t *) JUNKP) + (rh == (mpq_t *) JUNKP)
+				+ (se == (char *) JUNKP) + (names == (char **) JUNKP);
+			ev_int ("rows_unset", rc ? 0 : unset);
+			if (cnt == (int *) JUNKP) cnt = 0; if (beg == (int *) JUNKP) beg = 0; if (ind == (int *) JUNKP) ind = 0; if (val == (mpq_t *) JUNKP) val = 0;
+			if (rh == (mpq_t *) JUNKP) rh = 0; if (se == (char *) JUNKP) se = 0; if (names == (char **) JUNKP) names = 0;
+			free_rows (0, cnt, beg, ind, val, rh, se, 0, names);
+		}
 	}
 	{
 		int *cnt = 0, *beg = 0, *ind = 0; mpq_t *val = 0, *o = 0, *l = 0, *u = 0; char **names = 0;
+		if (nc == 0) { cnt = beg = ind = (int *) JUNKP; val = o = l = u = (mpq_t *) JUNKP; names = (char **) JUNKP; }
 		rc = mpq_QSget_columns (p, &cnt, &beg, &ind, &val, &o, &l, &u, &names);
+		if (nc == 0)
+		{
+			int unset = (cnt == (int *) JUNKP) + (beg == (int *) JUNKP) + (ind == (int *) JUNKP) + (val == (mpq_t *) JUNKP) + (o == (mpq_t *) JUNKP)
+				+ (l == (mpq_t *) JUNKP) + (u == (mpq_t *) JUNKP) + (names == (char **) JUNKP);
+			ev_int ("cols_unset", rc ? 0 : unset);
+			if (cnt == (int *) JUNKP) cnt = 0; if (beg == (int *) JUNKP) beg = 0; if (ind == (int *) JUNKP) ind = 0; if (val == (mpq_t *) JUNKP) val = 0;
+			if (o == (mpq_t *) JUNKP) o = 0; if (l == (mpq_t *) JUNKP) l = 0; if (u == (mpq_t *) JUNKP) u = 0; if (names == (char **) JUNKP) names = 0;
+		}
 		emit_cols ("cols", rc, nc, cnt, beg, ind, val, o, l, u, names);
 		free_cols (nc, cnt, beg, ind, val, o, l, u, names);
 	}
@@ -1098,7 +1136,7 @@ static void c_get_prob (void)
 	BEGIN ("get_prob");
 	free_slot_p (k);
 	rd = mpq_QSline_reader_new ((void *) mem_gets, &m);
-	if (coll) { mem = mpq_QSerror_memory_create (1); ec = mpq_QSerror_memory_collector_new (mem); mpq_QSline_reader_set_error_collector (rd, ec); }
+	if (coll) { mem = mpq_QSerror_memory_create (coll == 2 ? 0 : 1); ec = mpq_QSerror_memory_collector_new (mem); mpq_QSline_reader_set_error_collector (rd, ec); }
 	P[k] = mpq_QSget_prob (rd, "fromreader", ty);
 	ev_int ("rc", P[k] ? 0 : 1);
 	ev_int ("linecalls", m.calls);
@@ -1113,6 +1151,22 @@ static void c_get_prob (void)
 			put_str (mpq_QSerror_get_desc (e), -1); fputc (']', EV);
 		}
 		fputc (']', EV);
+		/* print every collected error to a stream that belongs to the caller (twice): it has to stay open */
+		if (n > 0)
+		{
+			FILE *own = fopen ("/dev/null", "w"); int fd, closed = 0, printed = 0;
+			if (!own) die ("get_prob: /dev/null");
+			fd = fileno (own);
+			for (i = 0, e = mpq_QSerror_memory_get_last_error (mem); e && i < 16 && !closed; e = mpq_QSerror_memory_get_prev_error (e), i++)
+			{
+				mpq_QSerror_print (own, e); printed++;
+				if (fcntl (fd, F_GETFD) == -1) { closed = 1; break; }
+				mpq_QSerror_print (own, e); printed++;
+				if (fcntl (fd, F_GETFD) == -1) closed = 1;
+			}
+			ev_int ("printed", printed); ev_int ("print_closed_stream", closed);
+			if (!closed) fclose (own);				/* otherwise the FILE is gone already: touching it again would be our own bug */
+		}
 	}
 	END ();
 	mpq_QSline_reader_free (rd);
@@ -1332,7 +1386,7 @@ static cmd_t cmds[] = {
 	C (delete_rows), C (delete_cols), C (delete_row), C (delete_col), C (delete_named_row), C (delete_named_column),
 	C (delete_named_rows_list), C (delete_named_columns_list), C (delete_setrows), C (delete_setcols),
 	C (change_sense), C (change_senses), C (change_coef), C (change_objcoef), C (change_rhscoef), C (change_range), C (change_bound),
-	C (change_bounds), C (change_objsense), C (set_param), C (set_param_num), C (get_param), C (get_param_num),
+	C (change_bounds), C (change_objsense), C (set_param), C (set_reporter), C (set_param_num), C (get_param), C (get_param_num),
 	C (dump), C (dumpx), C (dumpsol), C (get_coef), C (get_bound), C (get_bounds_list), C (get_obj_list), C (get_rows_list),
 	C (get_ranged_rows_list), C (get_columns_list), C (get_column_index), C (get_row_index), C (get_named_x), C (get_named_rc),
 	C (get_named_pi), C (get_named_slack),
